@@ -264,9 +264,14 @@ Definition mo_rules : Type := list (nat * mo_factor).
 Definition mo_node : Type := list nat * mo_rules.
 Definition mo_rule : Type := (list nat * list nat) * list Q.   (* MOQFunctionRule *)
 
-(* Eigen vector sum (equal sizes) *)
+(* Eigen vector sum.  All vectors of one run have the same size (the number of objectives); for
+   different sizes Eigen's sum is undefined, and the model pads the shorter one with zeros. *)
 Fixpoint vplus (a b : list Q) : list Q :=
-  match a, b with x :: a', y :: b' => (x + y)%Q :: vplus a' b' | _, _ => [] end.
+  match a, b with
+  | x :: a', y :: b' => (x + y)%Q :: vplus a' b'
+  | [], _ => b
+  | _, [] => a
+  end.
 
 (* src: Factored/Utils/Core.cpp:merge(PartialFactors, PartialFactors); fuel = total length *)
 Fixpoint merge_tag_go (fuel : nat) (lk lv rk rv : list nat) : list nat * list nat :=
@@ -338,13 +343,24 @@ Fixpoint tag_insert (agent x : nat) (ks vs : list nat) : list nat * list nat :=
   | _, _ => ([agent], [x])
   end.
 
-(* newFactor for the j-th joint value of the neighbours: all surviving entries of all actions of v;
-   an action with nothing to cross-sum contributes nothing *)
+Definition isnil {X : Type} (l : list X) : bool := match l with [] => true | _ => false end.
+
+(* newFactor for the j-th joint value of the neighbours (REPAIRED code,
+   fixes/C13-move-ucve-unmentioned-zero.patch): the entries of every action of v for which some
+   rule applies, tagged with that action; then, if there is any such entry, one zero entry per
+   action for which no rule applies (Global::isValidNewFactor).  If no action is mentioned the
+   factor is empty, i.e. invalid: nothing is stored. *)
 Definition mo_new_factor (A : list nat) (Fv : list mo_node) (N : list nat) (v j : nat) : mo_factor :=
   let base := scatter N (pdec N A j) (length A) in
-  flat_map (fun x => map (fun e : mo_entry => (fst e, tag_insert v x (fst (snd e)) (snd (snd e))))
-                         (mo_cross_sum A Fv (upd v x base)))
-           (seq 0 (nth v A 0)).
+  let ents := flat_map (fun x => map (fun e : mo_entry => (fst e, tag_insert v x (fst (snd e)) (snd (snd e))))
+                                     (mo_cross_sum A Fv (upd v x base)))
+                       (seq 0 (nth v A 0)) in
+  match ents with
+  | [] => []
+  | e0 :: _ =>
+    ents ++ map (fun x => (repeat 0%Q (length (fst e0)), ([v], [x])))
+                (filter (fun x => isnil (mo_cross_sum A Fv (upd v x base))) (seq 0 (nth v A 0)))
+  end.
 
 Fixpoint mo_span_lt (jv : nat) (rs : mo_rules) : mo_rules * mo_rules :=
   match rs with
@@ -381,8 +397,11 @@ Definition mo_remove_factor (A : list nat) (st : list mo_node * list mo_factor) 
   | _ => (mo_upd_node N (mo_merge_walk news 0) G, fin)
   end.
 
-Definition vle (a b : list Q) : bool := forallb (fun p : Q * Q => Qle_bool (fst p) (snd p)) (combine a b).
-Definition veqb (a b : list Q) : bool := forallb (fun p : Q * Q => Qeq_bool (fst p) (snd p)) (combine a b).
+(* componentwise comparisons (a missing component reads as 0; sizes are equal in every run) *)
+Definition vle (a b : list Q) : bool :=
+  forallb (fun k => Qle_bool (nth k a 0%Q) (nth k b 0%Q)) (seq 0 (Nat.max (length a) (length b))).
+Definition veqb (a b : list Q) : bool :=
+  forallb (fun k => Qeq_bool (nth k a 0%Q) (nth k b 0%Q)) (seq 0 (Nat.max (length a) (length b))).
 
 (* src: Utils/Prune.hpp:extractDominated, by its meaning on exactly-represented vectors that are
    equal or differ by much more than the tolerances: an entry stays iff no other entry is >=
